@@ -131,6 +131,7 @@ class Scheduler:
       else:
         self._record(w, event, fields, info)
       self.state[w] = RUNNING
+      self.cv.notify_all()
       if park:
         self._park(w)
 
@@ -143,18 +144,24 @@ class Scheduler:
       self.cv.wait()
     if not self.free:
       self.state[w] = RUNNING
+      self.cv.notify_all()
 
   def _line_yield(self, w):
     with self.cv:
       if self.free:
         return
       if self.turn != w:
+        # a worker that had been classified blocked shows up at a scheduling point
         self.tokenless += 1
+        self.pending[w] = ('line', {})
         self.cv.notify_all()
         while self.turn != w and not self.free:
           self.cv.wait()
+        self.pending.pop(w, None)
         if self.free:
           return
+        self.state[w] = RUNNING
+        self.cv.notify_all()
         return
       if self.holding_token_after_hold.get(w) or self._probing == w:
         return
@@ -201,6 +208,7 @@ class Scheduler:
       while self.turn != w and not self.free:
         self.cv.wait()
       self.state[w] = RUNNING
+      self.cv.notify_all()
     if self.mode == 'line':
       sys.settrace(self._tracer)
     try:
@@ -306,8 +314,15 @@ class Scheduler:
       if self.state[w] == FINISHED:
         return FINISHED
       self._probing = w if probe else None
+      prev = self.state[w]
       self.turn = w
       self.cv.notify_all()
+      if prev in (PARKED, START):
+        # the worker is waiting for the token: wait until it has taken it, so that the quiet period
+        # below measures the worker and not the operating system's wake-up latency
+        self.cv.wait_for(lambda: self.state[w] != prev or self.turn is None, timeout=self.stuck)
+      elif w in self.pending:
+        self.cv.wait_for(lambda: w not in self.pending or self.turn is None, timeout=self.stuck)
       ok = self.cv.wait_for(lambda: self.turn is None or self.state[w] == FINISHED, timeout=timeout)
       self._probing = None
       if not ok:
@@ -440,7 +455,7 @@ def make_policy(name: str, rng: random.Random, nworkers: int, horizon: int) -> P
 def run_random(s: Scheduler, fns, policy: Policy, rng: random.Random, *, probe_p: float = 1.0,
                serial_until: Optional[Callable[[Scheduler, int], bool]] = None,
                max_steps: int = 200000) -> str:
-  """Runs the workers to completion under `policy`.
+  """Starts the workers and runs them to completion under `policy`.
 
   `serial_until(s, w)`: when given, worker w is first run alone until the predicate holds
   (sequential start).  Returns 'done' | 'deadlock' | 'mutual_exclusion' | 'stuck' | 'overrun'.
@@ -451,6 +466,12 @@ def run_random(s: Scheduler, fns, policy: Policy, rng: random.Random, *, probe_p
       while s.state[w] not in (FINISHED,) and not serial_until(s, w):
         if s.resume(w) == BLOCKED:
           return 'stuck'
+  return drive(s, policy, rng, probe_p=probe_p, max_steps=max_steps)
+
+
+def drive(s: Scheduler, policy: Policy, rng: random.Random, *, probe_p: float = 1.0,
+          max_steps: int = 200000) -> str:
+  """Runs the (already started) workers to completion under `policy`."""
   current = None
   step = 0
   while s.alive():
